@@ -114,7 +114,7 @@ theorem delete_sub_step_core {d : Disk} (inv : Inv d) {D X : Bytes} (a : SubArg 
     simp only [List.isEmpty_nil, if_true]
     exact entName_of_key hnD hgoodD hkD
   have hpDne : absPath D ≠ [] := by
-    obtain ⟨_, _, _, _, _, _, hdn⟩ := hgoodD
+    obtain ⟨_, _, _, _, _, _, hdn, _, _⟩ := hgoodD
     have := hdn sd.isdir
     rw [← hpD]
     unfold entPath
